@@ -50,7 +50,7 @@ var props = map[string]propCfg{
 	"C04": {Level: "exploration", Variants: []variant{{Name: "plain"}}, CPUHang: 20},
 	"C05": {Level: "exploration", Variants: []variant{{Name: "overlay", Overlay: atpFiles}, {Name: "race", Race: true}}},
 	"C06": {Level: "exploration", Variants: []variant{{Name: "overlay", Overlay: atpFiles}}},
-	"C07": {Level: "fault_enumeration", Variants: []variant{{Name: "plain"}}},
+	"C07": {Level: "fault_enumeration", Variants: []variant{{Name: "plain"}, {Name: "race", Race: true}}},
 	"C08": {Level: "fault_enumeration", Variants: []variant{{Name: "plain"}}},
 	"C09": {Level: "exploration", Variants: []variant{{Name: "plain"}}, CPUHang: 20},
 	"C10": {Level: "fault_enumeration", Variants: []variant{{Name: "plain"}}, CPUHang: 20},
@@ -887,7 +887,7 @@ func writeEvidence(id string, cfg propCfg, tier string, seed uint64, m shardResu
 			cov[strings.TrimPrefix(k, "cov.")] = v
 		}
 	}
-	if cov["samples"] == nil {
+	if len(m.samples) == 0 {
 		cov["samples"] = []any{}
 	}
 	assumptions := []string{}
